@@ -916,3 +916,26 @@ Corollary round_ne_is_flocq_binary_normalize_via_specfloat z :
 Proof.
   intros Hz. rewrite flocq_normalize_bits_specfloat. symmetry. apply SpecFloatLink.round_ne_is_specfloat. exact Hz.
 Qed.
+
+(* the way the readers call it (JsonText.parse_number, PathParse, Dispatch): integer digits ids, fraction digits fds, exponent e;
+   the mantissa read from ASCII digits is never negative, so the theorem applies to every literal *)
+Lemma digits_val_nonneg ds :
+  Forall (fun d => (48 <= d)%N) ds -> forall acc, 0 <= acc -> 0 <= digits_val ds acc.
+Proof.
+  induction 1 as [|d ds Hd _ IH]; intros acc Hacc; cbn [digits_val]; [exact Hacc|].
+  apply IH. lia.
+Qed.
+
+Theorem decimal_literal_is_nearest_even neg ids fds e :
+  Forall (fun d => (48 <= d)%N) ids -> Forall (fun d => (48 <= d)%N) fds ->
+  let m10 := digits_val fds (digits_val ids 0) in
+  let e10 := e - Z.of_nat (length fds) in
+  let r := round radix2 (FLT_exp (-1074) 53) ZnearestE (F2R (Float radix10 (cond_Zopp neg m10) e10)) in
+  let f := b64_of_bits (Z.of_N (round_dec neg m10 e10)) in
+  if Rlt_bool (Rabs r) (bpow radix2 1024)
+  then B2R 53 1024 f = r /\ is_finite 53 1024 f = true /\ Bsign 53 1024 f = neg
+  else f = B754_infinity 53 1024 neg.
+Proof.
+  intros Hi Hf m10 e10. apply round_dec_is_nearest_even.
+  apply digits_val_nonneg; [exact Hf|]. apply digits_val_nonneg; [exact Hi|lia].
+Qed.
